@@ -7,6 +7,7 @@ import GateryModel.C01.MuxChainU
 import GateryModel.C01.RewireRules
 import GateryModel.C01.Unused
 import GateryModel.C01.Unconnected
+import GateryModel.C01.RewireOptProof
 /-!
 # C01 — property theorems
 
@@ -34,7 +35,8 @@ Three layers (DESIGN.md §5/C01, as built):
 * `mergeBinaryMuxChain` (C01/MuxChain.lean): a chain of muxes comparing one selector with constants equals the one big mux over the table
   the pass builds, for every chain length and width, when the selector is defined.
 * `mergeRewires`, `Node_Rewire::optimize` (C01/RewireRules.lean): fetching through a slicing rewire = fetching from its input with shifted
-  offsets; dropping zero-width ranges; merging adjacent ranges — exact for all four-state values.
+  offsets; dropping zero-width ranges; merging adjacent ranges — exact for all four-state values. `Node_Rewire::optimize` is in addition
+  modelled as a function (C01/RewireOpt.lean), proved value preserving (C01/RewireOptProof.lean) and replayed against the real function.
 * `insertConstUndefinedNodes`, `disconnectZeroBitConnections` (C01/Unconnected.lean): driving an input without state by an all-undefined
   constant of any width (zero included) refines the value of every core node — equal except where the real code tests for a missing input
   first and yields all-undefined; as a netlist rewrite it is locally sound, hence composes with all other rules.
@@ -246,6 +248,29 @@ theorem optimizeRewire_rules (pre post : List Range) (ins : Ins) :
 
 example : evalRewire ([⟨2, .input 0 1⟩].map (shiftRange 0 3)) ([some (BV4.tab 4 fun i => optBit (some (BV4.ofNat 8 0xA5)) (3 + i))].set 0 (some (BV4.ofNat 8 0xA5))) =
           evalRewire [⟨2, .input 0 1⟩] [some (BV4.tab 4 fun i => optBit (some (BV4.ofNat 8 0xA5)) (3 + i))] := by decide
+
+/-- `optimizeRewireNodes`, the function itself: `rewireOptimize` (C01/RewireOpt.lean) models `Node_Rewire::optimize()` statement by
+    statement — zero-width ranges erased, ranges reading fully defined all-zero / all-one constants turned into constant ranges, one
+    merging sweep, inputs renumbered by driver with sharing — and is replayed against the real function on generated operations on
+    every run (driver: `what=rewire-optimize`). For every operation, wiring and four-state driver values the optimised operation on
+    the new inputs evaluates to the value of the original one. -/
+theorem optimizeRewireNodes_function (cks : List CK) (drv : List (Option Nat)) (rs : List Range) (val : Option Nat → Option BV4)
+    (hval : val none = none) (hc : ConstOK cks (drv.map val) rs) :
+    evalRewire (rewireOptimize cks drv rs).1 ((rewireOptimize cks drv rs).2.map val) = evalRewire rs (drv.map val) :=
+  rewireOptimize_sound cks drv rs val hval hc
+
+/-- the premise `ConstOK` holds when the inputs classified constant are fully defined all-zero / all-one vectors at least as wide as
+    the ranges reading them (what `allDefined` / `allZero` / `allOne` of the constant's value establish) -/
+theorem optimizeRewireNodes_premise (cks : List CK) (ins : Ins) (rs : List Range)
+    (h : ∀ r ∈ rs, ∀ idx off, r.src = .input idx off →
+      (cks.getD idx .other = .zero → ∃ w, ins.getD idx none = some (List.replicate w .f) ∧ off + r.subwidth ≤ w) ∧
+      (cks.getD idx .other = .one → ∃ w, ins.getD idx none = some (List.replicate w .t) ∧ off + r.subwidth ≤ w)) :
+    ConstOK cks ins rs := constOK_of_const cks ins rs h
+
+-- inputs 0 and 2 share driver 7, input 1 is an all-zero constant: the constant folds and merges with the zero range, one input remains
+-- (the two ranges that now continue each other on the shared input are not merged: the sweep runs before the inputs are renumbered)
+example : rewireOptimize [.other, .zero, .other] [some 7, some 3, some 7] [⟨2, .input 0 0⟩, ⟨0, .one⟩, ⟨3, .input 2 2⟩, ⟨2, .input 1 1⟩, ⟨1, .zero⟩]
+    = ([⟨2, .input 0 0⟩, ⟨3, .input 0 2⟩, ⟨3, .zero⟩], [some 7]) := by decide
 
 /-! ### insertConstUndefinedNodes / disconnectZeroBitConnections -/
 
